@@ -3,6 +3,7 @@ package main
 
 import (
 	"fmt"
+	"os"
 	"sort"
 	"strings"
 	"time"
@@ -552,6 +553,11 @@ func (h *H) normalize() {
 }
 
 func (h *H) runFrame() {
+	if os.Getenv("XV_ONLY") == "churn" {
+		// debugging aid: the receiver-churn scenarios alone
+		h.runChurn()
+		return
+	}
 	A, err := StartNode("A", 0, nil)
 	if err != nil {
 		panic(err)
